@@ -232,3 +232,36 @@ func vh_C12_ActorDeep() {
 	c12CheckLog(log, 2, 1, overlap)
 	vfReach("end")
 }
+
+// the instance-method constructors Actor.New / Actor.NewByOptions (interface{} actors) give the same mailbox
+func vh_C12_UtilInstance() {
+	var log []int
+	var self *ActorDef[interface{}]
+	selfOK := true
+	effect := func(ac *ActorDef[interface{}], m interface{}) {
+		if ac != self {
+			selfOK = false
+		}
+		log = append(log, m.(int))
+	}
+	var a *ActorDef[interface{}]
+	if c := vfRange("mailbox-capacity", 0, 1); vfChoose("ctor", 2) == 0 {
+		a = Actor.New(effect)
+	} else {
+		a = Actor.NewByOptions(effect, make(chan interface{}, c), map[string]interface{}{})
+	}
+	self = a
+	x, y := vfInt("x"), vfInt("y")
+	a.Send(x)
+	a.Send(y)
+	vfQuiesce()
+	vfAssert("each-exactly-once-count", len(log) == 2)
+	if len(log) == 2 {
+		vfAssert("per-sender-order-and-once", vfAnd(log[0] == x, log[1] == y))
+	}
+	vfAssert("effect-receives-its-own-actor", selfOK)
+	vfNoPanic("nopanic-close-send", func() { a.Close(); a.Send(x) })
+	vfQuiesce()
+	vfAssert("send-after-close-dropped", len(log) == 2)
+	vfReach("end")
+}
